@@ -825,3 +825,33 @@ Proof.
   destruct (fold_align n (timestamps_of ref) d (tiers g) [] g g' eq_refl ND H) as (l' & T & F).
   exists ref. split; [reflexivity|]. now rewrite T.
 Qed.
+
+(* ---------------- Textgrid.mergeTiers ---------------- *)
+
+(* the unselected tiers are carried over unchanged and in their order (or dropped when not
+   preserved); then at most one interval tier and one point tier, present exactly when a tier of
+   that kind was selected *)
+Theorem tg_merge_shape g sel keep g' :
+  tg_merge g sel keep = Ok g' ->
+  let names_sel := match sel with Some l => l | None => names g end in
+  exists ts it pt,
+    mapM (fun n => match find_tier n (tiers g) with Some t => Ok t | None => Err PyError end) names_sel = Ok ts
+    /\ tiers g' = (if keep then filter (fun t => negb (name_in (tname t) names_sel)) (tiers g) else [])
+                  ++ match it with Some x => [TI x] | None => [] end ++ match pt with Some x => [TP x] | None => [] end
+    /\ (it = None <-> filter_map (fun t => match t with TI x => Some x | TP _ => None end) ts = [])
+    /\ (pt = None <-> filter_map (fun t => match t with TP x => Some x | TI _ => None end) ts = []).
+Proof.
+  unfold tg_merge. cbv zeta. set (names_sel := match sel with Some l => l | None => names g end).
+  destruct (mapM _ names_sel) as [ts|] eqn:M; [|discriminate]. cbn [bind].
+  remember (filter_map (fun t => match t with TI x => Some x | TP _ => None end) ts) as li eqn:Eli.
+  remember (filter_map (fun t => match t with TP x => Some x | TI _ => None end) ts) as lp eqn:Elp.
+  destruct (fold_union_i li) as [it|] eqn:FI; [|discriminate]. cbn [bind].
+  destruct (fold_union_p lp) as [pt|] eqn:FP; [|discriminate]. cbn [bind]. intro H.
+  exists ts, it, pt. split; [reflexivity|]. split; [exact (add_all_inv _ _ _ _ H)|]. rewrite <- Eli, <- Elp. split.
+  - unfold fold_union_i in FI. destruct li as [|a r].
+    + injection FI as <-. split; reflexivity.
+    + destruct (fold_res union_i r a); [|discriminate]. injection FI as <-. split; discriminate.
+  - unfold fold_union_p in FP. destruct lp as [|a r].
+    + injection FP as <-. split; reflexivity.
+    + destruct (fold_res union_p r a); [|discriminate]. injection FP as <-. split; discriminate.
+Qed.
